@@ -697,7 +697,63 @@ func hasContainer(v any) bool {
 	return false
 }
 
+// Dict / Slice / Values hand out exactly what Get returns, also for stored derived containers whose ego
+// pointer was re-targeted after they were stored (the README's inner-first two-level construction) and for a
+// stored embedded base.
+func c13ExportsAreGet(c *oracleCtx) {
+	c.check("exports:retargeted", true, func() string {
+		inner := newDObject("k", 1)
+		o := NewObject("pet", inner, "n", 1)
+		l := NewList(inner, 2)
+		outer := &ddObject{dObject: inner, extra: 7}
+		outer.Init(outer) // the stored value's ego is now the outer value
+		il := newDList(1)
+		o.Set("lst", il)
+		l.Add(il)
+		ol := &ddList{dList: il, extra: 7}
+		ol.Init(ol)
+		for _, k := range []string{"pet", "lst", "n"} {
+			if !same(o.Dict()[k], o.Get(k)) {
+				return fmt.Sprintf("Dict()[%q] is %T, Get returns %T", k, o.Dict()[k], o.Get(k))
+			}
+		}
+		for i := 0; i < l.Count(); i++ {
+			if !same(l.Slice()[i], l.Get(i)) {
+				return fmt.Sprintf("Slice()[%d] is %T, Get returns %T", i, l.Slice()[i], l.Get(i))
+			}
+		}
+		vals := o.Values()
+		for i := 0; i < vals.Count(); i++ {
+			if _, isObj := vals.Get(i).(Object); isObj && !same(vals.Get(i), o.Get("pet")) {
+				return "Values() holds a different object than Get"
+			}
+		}
+		seen := map[string]any{}
+		o.ForEach(func(k string, v any) { seen[k] = v })
+		for k, v := range seen {
+			if !same(v, o.Get(k)) || !same(v, o.Dict()[k]) {
+				return "ForEach, Get and Dict disagree on the value of " + k
+			}
+		}
+		return ""
+	})
+	c.check("exports:embedded-base", true, func() string {
+		d := newDObject("k", 1)
+		o := NewObject("base", d.Object) // the embedded base is stored, not the derived value
+		dl := newDList(5)
+		l := NewList(dl.List)
+		if !same(o.Dict()["base"], o.Get("base")) {
+			return fmt.Sprintf("Dict()[base] is %T, Get returns %T", o.Dict()["base"], o.Get("base"))
+		}
+		if !same(l.Slice()[0], l.Get(0)) {
+			return fmt.Sprintf("Slice()[0] is %T, Get returns %T", l.Slice()[0], l.Get(0))
+		}
+		return ""
+	})
+}
+
 func c13Oracle(c *oracleCtx) {
+	c13ExportsAreGet(c)
 	trees := smallTrees()
 	c.rule = "small trees and native trees: Native* contain no container and are deep-equal to the content; NewXFrom(native).Native*() reproduces the input; Dict/Slice are one-level snapshots; mutating exports/sources never changes the container"
 	c.bound = fmt.Sprintf("%d container trees + 12 native trees", len(trees))
